@@ -408,6 +408,7 @@ def nontrivial(stats):
                                            or stats.get("tokens_after_certificate_expiry", 0) > 0
                                            or stats.get("reloads_ok", 0) > 0
                                            or stats.get("cache_hits", 0) > 0
+                                           or stats.get("tokens_naming_later_id_of_shared_key", 0) > 0
                                            or stats.get("cache_cross_variant_misses", 0) > 0
                                            or stats.get("published_keys", 0) > stats.get("jwks_reads", 0))
 
@@ -574,10 +575,15 @@ def run(R):
                 "cache lifetimes of 0.5 / 1.5 / 2.5 ticks of 100 ms on the wall clock; cases whose signing certificate / "
                 "issuing CA certificate runs out 2-3 s after the start sign and read the key set before and after that "
                 "instant, reload the store with the expired certificate (refused) and a renewed / another one. "
+                "About one generated key store out of seven (and a deterministic grid: two key types x three layouts x "
+                "every id of the store) lists one of its keys once or twice more under further X-Key-IDs, anywhere in "
+                "the file; the finalizer is then mostly configured with one of the ids of that key, mostly a later one, "
+                "and reloads go to stores that list a key again under the configured id. "
                 "Non-trivial sequential case = at "
                 "least one token created and (custom claims naming a reserved claim, or a successful reload, or a "
                 "token handed out while a certificate of a published key is outside its validity period, or a "
-                "token served from the cache, or a cached token of the same subject not served because the executing "
+                "token served from the cache, or a token naming a later id of a key its store lists several times, or "
+                "a cached token of the same subject not served because the executing "
                 "instance has another TTL, or more than one published key). Concurrent cases: "
                 "2-3 signer goroutines, 1-2 JWKS readers, 1-3 reloader goroutines firing OnChanged on goroutines of "
                 "their own, mutexes of jwt_signer.go replaced by jitter-adding ones; non-trivial = at least one token "
@@ -608,6 +614,8 @@ def run(R):
         "tokens_handed_out_after_a_published_certificate_ran_out": agg.get("tokens_after_certificate_expiry", 0),
         "jwks_reads_after_a_published_certificate_ran_out": agg.get("jwks_reads_after_certificate_expiry", 0),
         "reloads_refused_because_a_certificate_had_run_out": agg.get("reloads_refused_for_expired_certificate", 0),
+        "tokens_naming_a_later_id_of_a_key_listed_several_times": agg.get("tokens_naming_later_id_of_shared_key", 0),
+        "jwks_reads_showing_a_key_under_several_ids": agg.get("jwks_reads_with_key_under_several_ids", 0),
         "disagreements_checked": reported + conc_reported,
         "seconds_per_phase": phases,
     })
